@@ -13,6 +13,8 @@ MUTANTS = [
     {'name': 'skip-constant-columns-in-fit', 'rule': 'D2.coappend', 'file': G, 'old': "            univariate = self._fit_column(column, distribution, column_name)\n            columns.append(column_name)", 'new': "            univariate = self._fit_column(column, distribution, column_name)\n            if column.nunique() < 2:\n                continue\n            columns.append(column_name)"},
     {'name': 'columns-univariates-swapped-in-fit', 'rule': 'D2.coappend', 'file': G, 'old': "        self.columns = columns\n        self.univariates = univariates\n", 'new': "        self.columns = univariates\n        self.univariates = columns\n"},
     {'name': 'wrong-column-selected', 'rule': 'D3.kinds', 'file': G, 'old': "                cdf = stats.norm.cdf(samples[column_name])", 'new': "                first = self.columns[0]\n                cdf = stats.norm.cdf(samples[first])"},
+    {'name': 'correlation-on-leading-rows', 'rule': 'D5.allrows', 'file': G, 'old': '        result = self._transform_to_normal(X)\n        correlation = pd.DataFrame(data=result).corr().to_numpy()', 'new': '        X = X[:5000]\n        result = self._transform_to_normal(X)\n        correlation = pd.DataFrame(data=result).corr().to_numpy()'},
+    {'name': 'fit-on-rows-without-missing', 'rule': 'D5.allrows', 'file': G, 'old': '        X = self._validate_input(X)\n        columns, univariates = self._fit_columns(X)', 'new': '        X = self._validate_input(X)\n        X = X.dropna()\n        columns, univariates = self._fit_columns(X)'},
 ]
 REWRITES = [
     {'name': 'ndtr-for-norm-cdf', 'file': G, 'edits': [
@@ -21,4 +23,5 @@ REWRITES = [
     {'name': 'explicit-columns-on-frame', 'file': G, 'old': "        return pd.DataFrame(data=output)", 'new': "        return pd.DataFrame(data=output, columns=self.columns)"},
     {'name': 'inline-cdf-temp', 'file': G, 'old': "                cdf = stats.norm.cdf(samples[column_name])\n                output[column_name] = univariate.percent_point(cdf)", 'new': "                output[column_name] = univariate.percent_point(stats.norm.cdf(samples[column_name]))"},
     {'name': 'size-positional', 'file': G, 'old': "np.random.multivariate_normal(means, covariance, size=num_rows)", 'new': "np.random.multivariate_normal(means, covariance, num_rows)"},
+    {'name': 'correlation-on-a-copy', 'file': G, 'old': '        result = self._transform_to_normal(X)\n        correlation = pd.DataFrame(data=result).corr().to_numpy()', 'new': '        X = X.copy()\n        result = self._transform_to_normal(X)\n        correlation = pd.DataFrame(data=result).corr().to_numpy()'},
 ]
